@@ -97,3 +97,57 @@ def _(run):
     def only_model_errors(kind, v, s): return z3.BoolVal(kind in ('continue', 'fall') or is_err(kind, v))
     run.post(ex, outs, pre, {'inconsistent-pair-always-a-model-error': edc, 'consistent-and-separable-pair-passes-silently': quiet,
                              'xsd11-wildcard-vs-element-is-never-an-error': precedence, 'ends-in-continue-or-model-error': only_model_errors})
+
+
+# ------------------------------------------------------------------ Xsd11Element.is_overlap / XsdElement.is_overlap against another element (C15)
+def mk_overlap(cls, shared_members):
+    t = Target(f'elements.{cls}.is_overlap.element_vs_element', ['C15'], 'xmlschema/validators/elements.py', f'{cls}.is_overlap',
+               note='two element particles overlap exactly when some child can be attributed to both: the sets {name} + names of the (transitive) substitutes of the two declarations '
+                    'intersect' + ('' if shared_members else ' (XSD 1.0: a member has one head, so two unrelated heads never share a member; the relation is decided through '
+                    'head-contains-member in either direction)'),
+               assumes=['iter_substitutes() is the set of names of the transitive substitutes (uninterpreted set of strings per declaration); the other particle is an element (the '
+                        'wildcard branch is covered by the wildcard contracts)', 'a declaration is never its own substitute'])
+
+    @t.symbolic
+    def _(run):
+        ex = run.exec(); st = new_state()
+        sn, on = z3.String('self_name'), z3.String('other_name')
+        ss, so = z3.Const('subs_self', z3.ArraySort(S, B)), z3.Const('subs_other', z3.ArraySort(S, B))
+        direct_so = z3.Bool('other_substitution_group_is_self'); direct_os = z3.Bool('self_substitution_group_is_other')
+        st.objf['self'] = {'name': VStr(sn), 'substitution_group': VOpt(z3.Bool('self_sg_none'), VStr(z3.If(direct_os, on, SV('{urn:x}unrelated1'))))}
+        st.objf['other'] = {'name': VStr(on), 'substitution_group': VOpt(z3.Bool('other_sg_none'), VStr(z3.If(direct_so, sn, SV('{urn:x}unrelated2'))))}
+        st.env.update(self=VObj('self'), other=VObj('other'))
+        ex.callees['isinstance'] = lambda e, s, r, a, k: VBool(z3.BoolVal(ast.unparse(a[1]) == 'XsdElement'))
+        ex.names.update(XsdElement=OPAQUE, XsdAnyElement=OPAQUE)
+        orig_call, orig_attr = ex.e_Call, ex.e_Attribute
+
+        def e_Call(e, s):
+            src = ast.unparse(e)
+            if isinstance(e.func, ast.Name) and e.func.id == 'any' and len(e.args) == 1 and isinstance(e.args[0], ast.GeneratorExp):
+                inner = ast.unparse(e.args[0]); inner = inner[1:-1] if inner.startswith('(') else inner
+                if inner == 'self.name == x.name for x in other.iter_substitutes()': return VBool(so[sn])
+                if inner == 'other.name == x.name for x in self.iter_substitutes()': return VBool(ss[on])
+                if inner == 'x is e for x in other.iter_substitutes()': return VBool(so[s.env['e'].t])
+                raise Unsupported('generator expression not in the contract: ' + inner)
+            return orig_call(e, s)
+        ex.e_Call = e_Call
+        ex.e_Attribute = lambda e, s: s.env['e'] if ast.unparse(e) == 'e.name' else orig_attr(e, s)
+        q = z3.Const('q', S)
+
+        def loop(ex_, node, s):
+            inv = lambda s2, seen: z3.ForAll([q], z3.Implies(seen[q], z3.And(q != on, z3.Not(so[q]))))
+            def bind(sb, x): sb.env['e'] = VStr(x)
+            return foreach(ex_, node, s, S, ss, bind, inv, lambda s2: None)
+        ex.invariants['for e in self.iter_substitutes()'] = loop
+        # a declaration is not its own substitute; the direct relation is part of the transitive one
+        pre = z3.And(z3.Not(ss[sn]), z3.Not(so[on]), z3.Implies(z3.And(direct_so, z3.Not(z3.Bool('other_sg_none'))), ss[on]), z3.Implies(z3.And(direct_os, z3.Not(z3.Bool('self_sg_none'))), so[sn]),
+                     sn != SV('{urn:x}unrelated2'), on != SV('{urn:x}unrelated1'))
+        run.inputs.update(self_name=sn, other_name=on)
+        outs = ex.run(st, pre)
+        shared = z3.Exists([q], z3.And(ss[q], so[q]))
+        spec = z3.Or(sn == on, so[sn], ss[on], shared) if shared_members else z3.Or(sn == on, so[sn], ss[on])
+        run.post(ex, outs, pre, {'overlap-iff-the-name-sets-intersect': lambda kind, v, s: (v.t == spec) if kind == 'return' and isinstance(v, VBool) else z3.BoolVal(False)})
+    return t
+
+
+mk_overlap('Xsd11Element', True); mk_overlap('XsdElement', False)
